@@ -34,6 +34,8 @@ def rand_format(rng):
         dflt = {"t": "N"}
         if mode == "opt":
             dflt = {"t": "s", "v": list(rng.choice({"str": ["d", ""], "int": ["5", "0"], "bool": ["true", "0", ""]}[ty]))}
+            if rng.random() < 0.3:   # a default that is a Python value, not a text: True, 1, 0, 7 (True == 1 and hash alike)
+                dflt = rng.choice([{"t": "T"}, {"t": "I", "v": ["1"]}, {"t": "I", "v": ["0"]}, {"t": "I", "v": ["7"]}])
         opts.append({"long": list(lg), "short": shorts[k] if rng.random() < 0.7 else "", "mode": mode, "type": ty,
                      "nullable": rng.random() < 0.3, "dflt": dflt})
     narg = rng.randint(0, 4)
